@@ -74,7 +74,11 @@ func (x *Exec) script(q *Query, quant bool, z3 bool, model bool) string {
 }
 
 func runSolver(bin string, args []string, script string, timeout time.Duration) (string, string, float64) {
-	ctx, cancel := context.WithTimeout(context.Background(), timeout+2*time.Second)
+	return runSolverCtx(context.Background(), bin, args, script, timeout)
+}
+
+func runSolverCtx(parent context.Context, bin string, args []string, script string, timeout time.Duration) (string, string, float64) {
+	ctx, cancel := context.WithTimeout(parent, timeout+2*time.Second)
 	defer cancel()
 	start := time.Now()
 	cmd := exec.CommandContext(ctx, bin, args...)
@@ -143,20 +147,45 @@ func (x *Exec) dischargeSeed(q *Query, tier string, seed int) *Result {
 		res.Answer, res.Backend, res.Output = "error", "qf:z3-new", out
 		return res
 	}
+	// the two z3 versions race on the full script: which of them finds the proof quickly
+	// varies from query to query, the first `unsat` (or a script error) wins
 	full := x.script(q, true, true, false)
-	a, out, s = runSolver("z3-new", append([]string{"-in", "-t:" + ms}, sa...), full, to)
-	res.Seconds += s
-	if a == "unsat" || a == "error" {
-		res.Answer, res.Backend, res.Output = a, "z3-new", out
-		return res
+	type ans struct {
+		a, out, backend string
+		s               float64
 	}
-	first := a
-	a, out, s = runSolver("z3", append([]string{"-in", "-t:" + ms}, sa...), full, to)
-	res.Seconds += s
-	if a == "unsat" {
-		res.Answer, res.Backend = "unsat", "z3-4.8.12"
-		return res
+	race, stop := context.WithCancel(context.Background())
+	ch := make(chan ans, 2)
+	go func() {
+		a, out, s := runSolverCtx(race, "z3-new", append([]string{"-in", "-t:" + ms}, sa...), full, to)
+		ch <- ans{a, out, "z3-new", s}
+	}()
+	go func() {
+		a, out, s := runSolverCtx(race, "z3", append([]string{"-in", "-t:" + ms}, sa...), full, to)
+		ch <- ans{a, out, "z3-4.8.12", s}
+	}()
+	var first string
+	var wall float64
+	for i := 0; i < 2; i++ {
+		r := <-ch
+		if r.s > wall {
+			wall = r.s
+		}
+		if r.a == "unsat" || (r.a == "error" && r.backend == "z3-new") {
+			stop()
+			res.Seconds += r.s
+			res.Answer, res.Backend = r.a, r.backend
+			if r.a == "error" {
+				res.Output = r.out
+			}
+			return res
+		}
+		if r.backend == "z3-new" {
+			first, out = r.a, r.out
+		}
 	}
+	stop()
+	res.Seconds += wall
 	if tier == "thorough" {
 		cv := x.script(q, true, false, false)
 		a3, _, s3 := runSolver("cvc5", []string{"--lang=smt2", "--tlimit=" + ms}, cv, to)
